@@ -172,7 +172,7 @@ static size_t lha_lz5_read(void *data, uint8_t *buf)
 			uint8_t cmd[2];
 			unsigned int seqstart, seqlen;
 
-			if (!decoder->callback(cmd, 2, decoder->callback_data)) {
+			if (decoder->callback(cmd, 2, decoder->callback_data) < 2) {
 				break;
 			}
 
